@@ -68,7 +68,7 @@ Definition ip_disp_repulsive (p pref c dE x q : R) : option R :=
     let Umax := ip_potential p pref c (q + 0 * 0) in
     let U0 := ip_potential p pref c (q + x * x) in
     if Rlt_dec dE (Umax - U0)
-    then Some (until_pos x q (Rpower (c * pref / (U0 + dE)) (2 / p)))
+    then let n2 := Rpower (c * pref / (U0 + dE)) (2 / p) in Some (until_pos x q n2)
     else None.
 
 Definition ip_disp_attractive (p pref c dE x q : R) : option R :=
@@ -76,7 +76,7 @@ Definition ip_disp_attractive (p pref c dE x q : R) : option R :=
   let x1 := if Rlt_dec 0 x then 0 else x in
   let U0 := ip_potential p pref c (q + x1 * x1) in
   if Rle_dec 0 (U0 + dE) then None
-  else Some (d0 + until_neg x1 q (Rpower (c * pref / (U0 + dE)) (2 / p))).
+  else let n2 := Rpower (c * pref / (U0 + dE)) (2 / p) in Some (d0 + until_neg x1 q n2).
 
 (** standard_velocity_displacement *)
 Definition ip_displacement (p pref c1 c2 dE x q : R) : option R :=
@@ -112,7 +112,7 @@ Definition mh_behind_inside (m : mexhat) (U0 dE x q : R) : option R :=
   let Umax := mh_pot m (q + 0 * 0) in
   let diff := Umax - U0 in
   if Rlt_dec dE diff
-  then Some (until_pos x q (mh_inv_in m (U0 + dE) * mh_inv_in m (U0 + dE)))
+  then let rn := mh_inv_in m (U0 + dE) in Some (until_pos x q (rn * rn))
   else xadd x (mh_front_inside m (dE - diff) 0 q).
 
 (** the try/except ValueError of _displacement_behind_outside_sphere is the explicit test
